@@ -451,6 +451,7 @@ def run(ctx):
     stats = run_faults(ctx, exe_plain, exe) or {}
     cov["evaluations"] = cov.get("lex_cases", 0) + stats.get("ops", 0)
     cov["distinct_nontrivial"] = cov.get("lex_with_newline_entries", 0) + stats.get("faults_with_errors", 0)
+    cov["samples"] = list(cov.get("lex_samples", []))[:4]
     cov["correspondence_cases"] = cov.get("lex_cases", 0) + stats.get("xpath_cases", 0) + stats.get("lexer_level_predictions", 0)
     cov["correspondence_disagreements"] = cov.get("lex_disagreements", 0) + stats.get("xpath_mismatches", 0) + stats.get("lexer_level_mismatches", 0)
     cov["rule"] = ("every diagnostic: XPath selects exactly one element of a DOM of the same bytes, line within that element's first text node, "
